@@ -301,9 +301,45 @@ def gen_queries(rng, geo, k):
 def path_json(cps): return [[list(p) for p in cp] for cp in cps]
 
 
-def run_input(cps, q):
+def make_path(cps, via=None):
+    """the closed path with these segments: from a segment list, or (via='nodelist') from a node list that does NOT repeat its
+    start node, so that the last segment is the closing segment the library has to add itself"""
+    if via != 'nodelist': return BezierPath.fromSegments(to_segments(cps))
+    from beziers.path.representations.Nodelist import Node
+    nl = [Node(cps[0][0][0], cps[0][0][1], 'line' if len(cps[0]) == 2 else 'curve')]
+    for k, cp in enumerate(cps):
+        for q in cp[1:-1]: nl.append(Node(q[0], q[1], 'offcurve'))
+        if k < len(cps) - 1: nl.append(Node(cp[-1][0], cp[-1][1], 'line' if len(cp) == 2 else 'curve'))
+    return BezierPath.fromNodelist(nl, closed=True)
+
+
+def gen_nodelist_closing(rng):
+    """closed contour whose closing segment is a curve, sometimes with its last handle retracted onto the start node"""
+    pfam, cps = gen_path(rng, rng.choice(['star-float', 'star-int', 'random-int']))
+    a, b = cps[-1][0], cps[-1][-1]
+    k = rng.choice([3, 4])
+    mid = [(a[0] + (b[0] - a[0]) * 0.4 + rng.uniform(-60, 60), a[1] + (b[1] - a[1]) * 0.4 + rng.uniform(-60, 60)) for _ in range(k - 2)]
+    if rng.random() < 0.6: mid[-1] = b            # retracted handle: the last off-curve node coincides with the first on-curve node
+    cps[-1] = [a] + mid + [b]
+    return 'nodelist-closing', cps
+
+
+def gen_overshoot(rng):
+    """a long cubic that leaves its start node heading slightly outwards before sweeping back: its x-extreme lies at a small
+    parameter (0.015..0.045) and sticks out 15..60 units beyond every other part of the outline at that height"""
+    ts = rng.uniform(0.015, 0.045); a = rng.uniform(700, 2500)
+    c = -a * (1 - 4 * ts) / (2 * ts)                       # x'(ts) ~ 0 for P1.x = a, P2.x = c (first order)
+    sx = rng.choice([1, -1]); ox, oy = float(rng.randint(-500, 500)), float(rng.randint(-500, 500))
+    h = rng.uniform(1500, 4000)
+    P0 = (0.0, 0.0); P1 = (a, -rng.uniform(60, 200)); P2 = (c, -0.6 * h); P3 = (-rng.uniform(2000, 4000), -h)
+    cps = [[P0, P1, P2, P3], [P3, (P3[0], 400.0)], [(P3[0], 400.0), P0]]
+    cps = [[(ox + sx * x, oy + y) for x, y in cp] for cp in cps]
+    return 'overshoot', cps, ts
+
+
+def run_input(cps, q, via=None):
     geo = Geo(cps)
-    path = BezierPath.fromSegments(to_segments(cps))
+    path = make_path(cps, via)
     return geo, check_point(path, geo, q)
 
 
@@ -327,13 +363,31 @@ def search(ctx):
             byclass[c] = byclass.get(c, 0) + 1
             byfam[c + ' @ ' + pfam + '/' + qfam] = byfam.get(c + ' @ ' + pfam + '/' + qfam, 0) + 1
             if byclass[c] <= 40 or c == 'C11-misclassified':
-                fails.append({'class': c, 'what': f[0], 'input': {'path_family': pfam, 'query_family': qfam, 'path': path_json(cps), 'point': list(q)},
+                fails.append({'class': c, 'what': f[0], 'input': {'path_family': pfam, 'query_family': qfam, 'path': path_json(cps), 'point': list(q),
+                                                                  **({'via': 'nodelist'} if pfam == 'nodelist-closing' else {})},
                               'observed': f, 'expected': 'pointIsInside = even-odd rule; winding number odd exactly inside, 0 outside the bounding box'})
 
     for _ in range(ctx.n(150, 4000)):
         pfam, cps = gen_path(rng)
         geo = Geo(cps); path = BezierPath.fromSegments(to_segments(cps))
         for qfam, q in gen_queries(rng, geo, 8): one(pfam, cps, geo, path, qfam, q)
+    # closing segment added by the library (node list without a repeated start node)
+    for _ in range(ctx.n(25, 600)):
+        pfam, cps = gen_nodelist_closing(rng)
+        geo = Geo(cps); path = make_path(cps, 'nodelist')
+        cl = cps[-1]
+        for qfam, q in gen_queries(rng, geo, 4): one(pfam, cps, geo, path, qfam, q)
+        for _k in range(3):        # level with the closing curve
+            t = rng.uniform(0.1, 0.9); pt = ref.bern(cl, t)
+            one(pfam, cps, geo, path, 'closing-level', (rng.choice([geo.box[0] - 25.0, geo.box[2] + 25.0, pt[0] + rng.uniform(-40, 40)]), pt[1]))
+    # an extreme at a small parameter sticking out of the rest of the outline
+    for _ in range(ctx.n(12, 300)):
+        pfam, cps, ts = gen_overshoot(rng)
+        geo = Geo(cps); path = make_path(cps)
+        x0, y0, x1, y1 = geo.box
+        for _k in range(5):
+            t = ts * rng.uniform(0.5, 1.6); pt = ref.bern(cps[0], t)
+            one(pfam, cps, geo, path, 'overshoot-level', (rng.choice([x0 - 30.0, x1 + 30.0, rng.uniform(x0 + 50, x1 - 50)]), pt[1]))
     # rays through the crossing of two straight edges
     for _ in range(ctx.n(12, 200)):
         pfam, cps, (cx, cy) = gen_bowtie(rng)
@@ -362,7 +416,7 @@ def search(ctx):
 def replay(ctx, payload):
     i = payload['input']
     cps = [[tuple(p) for p in cp] for cp in i['path']]
-    geo, f = run_input(cps, tuple(i['point']))
+    geo, f = run_input(cps, tuple(i['point']), i.get('via'))
     return {'fails': bool(f), 'observed': f, 'class': classify(geo, tuple(i['point'])) if f else None}
 
 
